@@ -62,7 +62,11 @@ def eval_set(case):
         return {'v': [('delegations/build-raises', f'{type(e).__name__}: {e} for {case}')], 'nt': None, 'out': 'build-raise'}
     want = describe(ds)
     text = ds.to_json()
-    back = Delegations.from_json(json_str=text, atype=T[t])
+    try:
+        back = Delegations.from_json(json_str=text, atype=T[t])
+    except Exception as e:
+        bad(f'delegations/decode-raises/{type(e).__name__}', f'decoding its own encoding {text} raised {type(e).__name__}: {e}')
+        return {'v': v, 'nt': (t, tuple(members)), 'out': 'decode-raise'}
     if back is None:
         bad('delegations/decodes-to-absent', text)
         return {'v': v, 'nt': (t, tuple(members)), 'out': 'lost'}
